@@ -52,7 +52,7 @@ def loadable(buf):
             _xml.xmlFreeDoc(doc)
 
 
-CMDS = ['abidiff-dmg-intact', 'abidiff-intact-dmg', 'abidiff-dmg-elf', 'abidiff-elf-dmg', 'abicompat-lib1', 'abicompat-lib2', 'abicompat-app', 'abicompat-weak-lib', 'abicompat-weak-app']
+CMDS = ['abidiff-dmg-intact', 'abidiff-intact-dmg', 'abidiff-dmg-elf', 'abidiff-elf-dmg', 'abicompat-lib1', 'abicompat-lib2', 'abicompat-app', 'abicompat-weak-lib', 'abicompat-weak-app', 'abicompat-lib1-nodeps', 'abicompat-lib2-nodeps', 'abicompat-weak-lib-nodeps']     # nodeps: an application without undefined symbols
 
 
 def make_items(ctx, only=None):
@@ -91,7 +91,7 @@ def make_items(ctx, only=None):
             body = open(p, 'rb').read()
             if not loadable(body):
                 raise C.InfraError('the intact workload document %s is not loadable according to the judge' % name)
-            it = {'name': name, 'doc': p, 'body': body, 'elf': libs['shapes_v0'], 'W': 1, 'app': ctx.libs['app'], 'other': doc('shapes_v1')[0], 'tu': True}
+            it = {'name': name, 'doc': p, 'body': body, 'elf': libs['shapes_v0'], 'W': 1, 'app': ctx.libs['app'], 'app_nodeps': ctx.libs['app_nodeps'], 'other': doc('shapes_v1')[0], 'tu': True}
             o = ctx.run('abidiff', restart_template(it, 'abidiff-dmg-intact', p, track=True))
             it['R'] = o.res['simf']['objects'][0]['reads']
             if o.exit != 0:
@@ -103,7 +103,7 @@ def make_items(ctx, only=None):
         if not loadable(body):
             raise C.InfraError('the intact workload document %s is not loadable according to the judge' % name)
         it = {'name': name, 'doc': p, 'body': body, 'elf': libs[name] if name in libs else libs['shapes_v0'], 'W': ref.res['simf']['objects'][0]['writes'],
-              'app': ctx.libs['app'], 'other': doc('shapes_v1' if name != 'shapes_v1' else 'shapes_v0')[0]}
+              'app': ctx.libs['app'], 'app_nodeps': ctx.libs['app_nodeps'], 'other': doc('shapes_v1' if name != 'shapes_v1' else 'shapes_v0')[0]}
         # fault-free reads of the intact document by each restart command: number of read calls on it
         o = ctx.run('abidiff', restart_template(it, 'abidiff-dmg-intact', p, track=True))
         it['R'] = o.res['simf']['objects'][0]['reads']
@@ -130,6 +130,12 @@ def restart_template(it, cmd, dmg, track=False, faults=None):
         tool, argv = 'abidiff', ['abidiff', it['elf'], dmg]
     elif cmd == 'abicompat-lib1':
         tool, argv = 'abicompat', ['abicompat', it['app'], dmg, it['other']]
+    elif cmd == 'abicompat-lib1-nodeps':
+        tool, argv = 'abicompat', ['abicompat', it['app_nodeps'], dmg, it['other']]
+    elif cmd == 'abicompat-lib2-nodeps':
+        tool, argv = 'abicompat', ['abicompat', it['app_nodeps'], it['other'], dmg]
+    elif cmd == 'abicompat-weak-lib-nodeps':
+        tool, argv = 'abicompat', ['abicompat', '--weak-mode', it['app_nodeps'], dmg]
     elif cmd == 'abicompat-app':
         tool, argv = 'abicompat', ['abicompat', dmg, it['other'], it['other']]
     elif cmd == 'abicompat-weak-lib':
